@@ -29,6 +29,10 @@ def _setup():
     enum_mod.math = MathStub()
     enum_mod.max = sym_max
     enum_mod.int = sym_int_ext
+    from fcp import verifier as verifier_mod
+    import fcp_dbc.generator as dgen
+    from ..pystubs import install_collections
+    install_collections(verifier_mod, dgen, cgen)
 
 
 # ---------------------------------------------------------------- tree descriptions
